@@ -271,6 +271,9 @@ def c10(out, tier, rng):
     noc = sorted(s for s in gen.SYMBOLS if s != "C")
     more += ["".join(hill) + "/(1-118)(2-117)", "".join(noc) + "/", "".join(f"{s}2" for s in hill) + "/(1-236)/(236:mass=300)(1:rad=3)",
              "".join(hill[:60]) + "/(1-60)", "CH4/\n(1-5)", "CH4/(1-5)\n", "C\nH4/"]
+    more += ["C12/(1-1\u0662)", "C12/(1-\u0661\u0662)", "C12/(1-1\uff12)", "C22/(2\u0968-1)", "C12//(1\u0e52:mass=2)", "C12//(1:mass=1\u0663)", "C1\u0662/",
+             "C2/(1-9223372036854775809)", "C2//(18446744073709551616:mass=13)", "C2/(1-2147483648)", "C2/(4294967297-1)", "C2/(1-9007199254740993)",
+             "C2//(1:mass=99999999)", "C2//(1:mass=10000000,rad=12345678)", "C2/(1-9223372036854775807)"]
     more += ["C257/(257-257)", "C300/(1-2)(299-299)", "C999/(999-999)", "C1000/(1000-1000)", "C300/(257-258)(258-257)", "C300//(257:mass=257,mass=257)",
              "C300//(300:mass=300)(300:mass=300)", "C300//(300:mass=300)(300:rad=300)", "C2/(1-2)\t", "\tC2/(1-2)", "C2/(1-2)\r\n", "C2/(1-2)\x0b", "\xa0C2/(1-2)",
              "C2/(1-2)\u2003", "C2 /(1-2)", "C2/ (1-2)"]
